@@ -22,6 +22,11 @@ Recognised (anything else becomes `.unknown`, which no reference term contains, 
 * `TestProgram.__init__`: the statement `if self.load_list:` must come after `self.parseArgs(argv)` and before the `if not self.listtests:`
   that runs or lists; its body: open the file "rb", read the lines (try/finally close, or a `with` block), `test_ids = {line.strip().decode("utf-8")
   for line in lines}`, `self.test = filter_by_ids(self.test, test_ids)` - the ASSIGNMENT is what is recognised, a bare call is `.unknown`.
+* `FixtureSuite.sort_tests(self)` - the library's own suite class with a `sort_tests` (the model's kind `csort`): exactly `self._tests =
+  list(sorted_tests(self, True))` (`unpack_outer=True` / the `sorted_tests(self, True)._tests` spelling alike) = the suite's children become the
+  ITEMS of sorted_tests of the suite itself with only the outer level unpacked - custom suites among them whole; the class must define nothing
+  but __init__, run and sort_tests (no filter_by_ids, no __iter__).  Anything else (seed C19-f iterated the sorted suite down to its
+  leaves) is `.unknown`.
 Parameter and local names are taken from the source (renaming is harmless).
 Trusted: this recogniser and that `TTV.SuiteUtilSkel.*I` read these forms as Python does.
 """
@@ -299,12 +304,33 @@ def load_list(init, cls=None):
     return '{ placedBetweenParseAndRun := %s, steps := [%s] }' % ('true' if placed else 'false', ', '.join(steps))
 
 
+# ---------------------------------------------------------------- FixtureSuite.sort_tests
+def fixture_sort_tests(tree):
+    try:
+        cls = find(tree, 'FixtureSuite')
+        fn = find(tree, 'FixtureSuite.sort_tests')
+    except ValueError:
+        return '.unknown'
+    if {c.name for c in cls.body if isinstance(c, (ast.FunctionDef, ast.AsyncFunctionDef))} != {'__init__', 'run', 'sort_tests'}:
+        return '.unknown'
+    if [u(b) for b in cls.bases] != ['unittest.TestSuite']:
+        return '.unknown'
+    ps = [a.arg for a in fn.args.posonlyargs + fn.args.args]
+    if len(ps) != 1 or fn.args.vararg or fn.args.kwarg or fn.args.kwonlyargs:
+        return '.unknown'
+    me = ps[0]
+    body = [u(st) for st in body_of(fn)]
+    forms = ['%s._tests = list(sorted_tests(%s, True))' % (me, me), '%s._tests = list(sorted_tests(%s, unpack_outer=True))' % (me, me),
+             '%s._tests = sorted_tests(%s, True)._tests' % (me, me), '%s._tests = sorted_tests(%s, unpack_outer=True)._tests' % (me, me)]
+    return '.itemsOfSortedOuter' if len(body) == 1 and body[0] in forms else '.unknown'
+
+
 def generate(repo):
     ts = ast.parse(open(os.path.join(repo, 'testtools', 'testsuite.py')).read())
     run = ast.parse(open(os.path.join(repo, 'testtools', 'run.py')).read())
     return '''import TTV.Model.SuiteUtilSkel
 /-! GENERATED by harness/pysuite2lean.py from testtools/testsuite.py and testtools/run.py on every run - do not edit.
-`iterate_tests`, `filter_by_ids`, `_flatten_tests`, `sorted_tests` and the `--load-list` block of `TestProgram.__init__`, as data. -/
+`iterate_tests`, `filter_by_ids`, `_flatten_tests`, `sorted_tests`, the `--load-list` block of `TestProgram.__init__` and `FixtureSuite.sort_tests`, as data. -/
 namespace TTV.Generated.SuiteSrc
 open TTV.SuiteUtilSkel
 
@@ -322,9 +348,11 @@ def sortedTests : List SortedStep := %s
 def loadList : LoadListSrc :=
     %s
 
+def fixtureSortTests : SortSelf := %s
+
 end TTV.Generated.SuiteSrc
 ''' % (iterate_tests(find(ts, 'iterate_tests')), filter_by_ids(find(ts, 'filter_by_ids')), flatten_tests(find(ts, '_flatten_tests')),
-       sorted_tests(find(ts, 'sorted_tests')), load_list(find(run, 'TestProgram.__init__'), find(run, 'TestProgram')))
+       sorted_tests(find(ts, 'sorted_tests')), load_list(find(run, 'TestProgram.__init__'), find(run, 'TestProgram')), fixture_sort_tests(ts))
 
 
 if __name__ == '__main__':
